@@ -1007,6 +1007,8 @@ namespace chaiscript {
 
         if (t_s.call_depth == 0) {
           t_s.call_params.back().clear();
+          // temporaries converted for the outermost call die with it, not with the next call
+          m_conversions.take_saves(t_saves);
           m_conversions.enable_conversion_saves(t_saves, false);
         }
       }
